@@ -392,6 +392,13 @@ func Drive(run *common.Run, prop string, b Budget) {
 		}
 		if c.Mode == "x" || c.Mode == "X" {
 			run.Count("extended-copy (oracle only)")
+			nroots := 0
+			for _, n := range g.Nodes {
+				if !n.Foreign() && len(g.Preds(n.ID)) == 0 && g.Reach(n.ID)[res.Root2] {
+					nroots++
+				}
+			}
+			run.Count(fmt.Sprintf("extended-copy roots=%d", min(nroots, 4)))
 			run.Case(id, "0 0 x 0 - - - - rp="+c.Stream, "UNJUDGED")
 			oracle(run, id, res)
 			return
